@@ -431,6 +431,8 @@ _general = gen_spec
 
 def gen_spec(rng: random.Random, **kw: Any) -> dict:  # type: ignore[no-redef]
     r = rng.random()
+    if kw.get("family") == "span":
+        return gen_span_spec(rng)
     if kw.get("family") == "general" or r < 0.55:
         kw.pop("family", None)
         kw.pop("raise_incomplete", None)
@@ -438,8 +440,6 @@ def gen_spec(rng: random.Random, **kw: Any) -> dict:  # type: ignore[no-redef]
     fam = kw.get("family")
     if fam == "fanin" or (fam is None and r < 0.70):
         return gen_fanin_spec(rng, raise_incomplete=bool(kw.get("raise_incomplete")))
-    if fam == "span":
-        return gen_span_spec(rng)
     if fam == "retry" or (fam is None and r < 0.85):
         return gen_retry_spec(rng)
     if fam == "wait_retry":
